@@ -163,6 +163,15 @@ func c02BlsCoordAlts(comp, unc []byte) []verifmc.Alteration {
 				}
 				out = append(out, verifmc.Alteration{Name: fmt.Sprintf("%s-slot%d+kp/k%d", f.form, sl, k), Data: b})
 			}
+			// the slot filled with ones: an out-of-range element (>= p) that denotes nothing, all other slots honest
+			{
+				b := append([]byte{}, f.enc...)
+				new(big.Int).Sub(limit, big.NewInt(1)).FillBytes(b[48*sl : 48*sl+48])
+				if sl == 0 {
+					b[0] |= flags
+				}
+				out = append(out, verifmc.Alteration{Name: fmt.Sprintf("%s-slot%d=max/ones", f.form, sl), Data: b})
+			}
 		}
 		if f.form == "uncompressed" {
 			b := append([]byte{}, f.enc...)
@@ -306,6 +315,79 @@ func c02BlsSingle[K bls.KeyGroup](t *testing.T, unit, name string, pkSize, sigSi
 				}
 			})
 		}
+		// reused receivers: (a) a public-key object that already holds the honest key decodes every altered encoding of
+		// that key: it must refuse, or end up equal to what a fresh object decodes; (b) Aggregate reuses one temporary
+		// from one signature to the next: [sig, alt] and [alt, sig] must fail exactly when [alt] alone fails.
+		{
+			pkH := append(c02BlsFlagAlphabet(pkEnc, pkSize), c02BlsCoordAlts(pkEnc, uncompressPK(pkEnc))...)
+			for _, a := range pkH {
+				id := base + "pk-reused-receiver:" + a.Name
+				if !r.Want(id) {
+					continue
+				}
+				var errR, errF error
+				same, okV := true, false
+				pn, what := verifmc.Try(func() {
+					obj := new(bls.PublicKey[K])
+					if err := obj.UnmarshalBinary(pkEnc); err != nil {
+						panic("honest key does not decode: " + err.Error())
+					}
+					errR = obj.UnmarshalBinary(a.Data)
+					fresh := new(bls.PublicKey[K])
+					errF = fresh.UnmarshalBinary(a.Data)
+					if errR == nil {
+						same = errF == nil && obj.Equal(fresh)
+						okV = bls.Verify(obj, msg, sig)
+					}
+				})
+				r.Eval(2)
+				r.Distinct(id)
+				r.Count("alt_pk-reused-receiver", 1)
+				pl := map[string]interface{}{"seed": verifmc.FullHex(seeds[si]), "honest_pk": verifmc.FullHex(pkEnc), "altered": verifmc.FullHex(a.Data), "msg": verifmc.Hex(msg), "honest_sig": verifmc.FullHex(sig)}
+				switch {
+				case pn:
+					col.Add(fmt.Sprintf("C02|%s|pk-reused-receiver|%s|panic:%s", name, c02Kind(a.Name), verifmc.PanicClass(what)), id, id+": panicked: "+what, pl)
+				case errR == nil && !same:
+					col.Add(fmt.Sprintf("C02|%s|pk-reused-receiver|%s|accepted", name, c02Kind(a.Name)), id,
+						fmt.Sprintf("%s: a key object holding the honest key accepts the altered encoding (fresh object: err=%v) and the honest signature verifies under it: %v", id, errF, okV), pl)
+					r.Outcome("pk-reused-receiver->ACCEPTED")
+				default:
+					r.Outcome(fmt.Sprintf("pk-reused-receiver->refused=%v", errR != nil))
+				}
+			}
+			sigH := append(c02BlsFlagAlphabet(sig, sigSize), c02BlsCoordAlts(sig, uncompress(sig))...)
+			var zero K
+			for _, a := range sigH {
+				id := base + "aggregate-reused-temporary:" + a.Name
+				if !r.Want(id) {
+					continue
+				}
+				var e1, e12, e21 error
+				var a12, a21 bls.Signature
+				pn, what := verifmc.Try(func() {
+					_, e1 = bls.Aggregate(zero, []bls.Signature{a.Data})
+					a12, e12 = bls.Aggregate(zero, []bls.Signature{sig, a.Data})
+					a21, e21 = bls.Aggregate(zero, []bls.Signature{a.Data, sig})
+				})
+				r.Eval(3)
+				r.Distinct(id)
+				r.Count("alt_aggregate-reused-temporary", 1)
+				pl := map[string]interface{}{"seed": verifmc.FullHex(seeds[si]), "honest_sig": verifmc.FullHex(sig), "altered": verifmc.FullHex(a.Data)}
+				switch {
+				case pn:
+					col.Add(fmt.Sprintf("C02|%s|aggregate-reused-temporary|%s|panic:%s", name, c02Kind(a.Name), verifmc.PanicClass(what)), id, id+": panicked: "+what, pl)
+				case e1 != nil && (e12 == nil || e21 == nil):
+					col.Add(fmt.Sprintf("C02|%s|aggregate-reused-temporary|%s|accepted", name, c02Kind(a.Name)), id,
+						fmt.Sprintf("%s: Aggregate refuses [alt] (%v) but accepts it next to the honest signature: [sig,alt] err=%v, [alt,sig] err=%v", id, e1, e12, e21), pl)
+					r.Outcome("aggregate-reused-temporary->ACCEPTED")
+				case e1 == nil && (e12 != nil || e21 != nil || !bytes.Equal(a12, a21)):
+					col.Add(fmt.Sprintf("C02|%s|aggregate-reused-temporary|%s|order-dependent", name, c02Kind(a.Name)), id,
+						fmt.Sprintf("%s: Aggregate accepts [alt] alone but [sig,alt] err=%v, [alt,sig] err=%v, equal=%v", id, e12, e21, bytes.Equal(a12, a21)), pl)
+				default:
+					r.Outcome(fmt.Sprintf("aggregate-reused-temporary->refused=%v", e1 != nil))
+				}
+			}
+		}
 		// two deviations that belong together: the identity as public key AND as signature (e(O, H(m)) = e(g, O) = 1 for
 		// every message, so only key validation stands between this pair and a universal forgery)
 		for _, ml := range []int{0, 33} {
@@ -348,7 +430,7 @@ func c02BlsSingle[K bls.KeyGroup](t *testing.T, unit, name string, pkSize, sigSi
 	r.Set("plan", fmt.Sprintf("seeds=%v msgLens=%v otherMsgLens=%v msgFlipLimit=%d pairs=%v", p.Seeds, p.MsgLens, p.AllMsgLens, p.MsgFlipLimit, p.Pairs))
 	if !r.Replaying() {
 		for _, c := range []string{"honest_verified", "alt_pk-other", "alt_pk-flip", "altered_pk_decoded", "alt_msg-other", "alt_msg-flip",
-			"alt_sig-flip", "alt_sig-trunc", "alt_sig-append", "alt_sig-flags", "alt_pk-flags", "alt_identity-pair", "alt_sig-coord", "alt_pk-coord"} {
+			"alt_sig-flip", "alt_sig-trunc", "alt_sig-append", "alt_sig-flags", "alt_pk-flags", "alt_identity-pair", "alt_sig-coord", "alt_pk-coord", "alt_pk-reused-receiver", "alt_aggregate-reused-temporary"} {
 			r.RequireCounter(c, 1)
 		}
 	}
